@@ -219,6 +219,8 @@ def obligations(tier, seed):
     for key in sorted(r_table()):
         obs.append(dict(name='dimensional_' + key.replace(' ', '_').replace('/', '-'), func='h_dimensional',
                         param=dict(key=key), timeout=to))
+    for u1 in range(len([k for k in r_table() if k.endswith('/K')])):
+        obs.append(dict(name='two_units_%d' % u1, func='h_two_units', param=dict(fix=dict(u1=u1)), timeout=to))
     for natoms in (1, 2, 3) if q else (1, 2, 3, 4):
         obs.append(dict(name='elemental_a%d' % natoms, func='h_elemental',
                         param=dict(natoms=natoms, maxh=2 if q else 3, ncorr=2), timeout=to))
@@ -241,3 +243,37 @@ def validate(tier, seed):
     missing = [z for z in ELEMENTS if z not in _c.S_elements]
     return [dict(name='fake Chem (AddHs/GetAtoms/GetAtomicNum) vs RDKit on 5 molecules', ok=ok and not missing, n=n,
                  detail='elements missing from pmutt S_elements: %r' % missing)]
+
+
+def h_two_units(d: bool):
+    """
+    post: _[0]
+    """
+    begin()
+    # the SAME correlation object asked at the SAME temperature in two different units (and with/without the elemental
+    # reference in between): each answer must be the product with ITS OWN gas constant - nothing remembered between calls
+    m = th.install()
+    tab = r_table()
+    keys = sorted(k for k in tab if k.endswith('/K'))
+    k1 = keys[choose('u1', len(keys))]
+    k2 = keys[choose('u2', len(keys))]
+    c = _make_corr(m['base'])
+    T = R('T')
+    if not (T > 0):
+        return skip()
+    try:
+        h1 = c.get_H(T, k1[:-2])
+        s1 = c.get_S(T, k1, S_elements=True)
+        h2 = c.get_H(T, k2[:-2])
+        s2 = c.get_S(T, k2)
+        g2 = c.get_G(T, k2[:-2])
+        s1b = c.get_S(T, k1)
+    except Exception as e:
+        return finish(False, 'raised:' + type(e).__name__)
+    ok, status = all_close(
+        [(h1, c.h * T * tab[k1]), (s1, (c.s - c.sel) * tab[k1]), (h2, c.h * T * tab[k2]), (s2, c.s * tab[k2]),
+         (g2, c.h * T * tab[k2] - T * c.s * tab[k2]), (s1b, c.s * tab[k1])],
+        ['H in the first unit', 'S with the elemental reference', 'two_units: H in a second unit is not (H/RT)*T*R(second unit)',
+         'two_units: S in a second unit / without the elemental reference after it was requested with it',
+         'two_units: G in the second unit', 'two_units: S without the elemental reference after a call with it'])
+    return finish(ok, status)
